@@ -890,7 +890,6 @@ pub fn guest_export_params_have_allocations(resolve: &Resolve, func: &Function) 
 fn needs_deallocate(resolve: &Resolve, ty: &Type, what: Deallocate) -> bool {
     match ty {
         Type::String => true,
-        Type::ErrorContext => true,
         Type::Id(id) => match &resolve.types[*id].kind {
             TypeDefKind::List(_) => true,
             TypeDefKind::Type(t) => needs_deallocate(resolve, t, what),
@@ -930,7 +929,8 @@ fn needs_deallocate(resolve: &Resolve, ty: &Type, what: Deallocate) -> bool {
         | Type::S64
         | Type::F32
         | Type::F64
-        | Type::Char => false,
+        | Type::Char
+        | Type::ErrorContext => false,
     }
 }
 
